@@ -10,6 +10,7 @@ use crate::checks::ctlrun::{self, Opts, Prog};
 use crate::models::ctl::Cmd;
 use crate::sched::{Strategy, next_dfs_prefix};
 use crate::util::{Ctx, J, Rng};
+use crate::vsh;
 use std::collections::HashSet;
 
 struct G<'a> {
@@ -156,7 +157,69 @@ fn report(ctx: &Ctx, i: usize, strategy: &Strategy, v: &ctlrun::Verdict) {
     );
 }
 
+/// Process-creation faults: the k-th fork fails while a pipeline is being started. The shell may
+/// give the script up or go on, but it must terminate, and it must not report success for a
+/// pipeline whose last command never ran.
+fn fork_fault_slice(ctx: &Ctx) {
+    let mut jobs: Vec<(usize, usize, bool, bool)> = Vec::new();
+    for n in 2..=4usize {
+        for k in 0..n {
+            for pipefail in [false, true] {
+                for in_if in [false, true] {
+                    jobs.push((n, k, pipefail, in_if));
+                }
+            }
+        }
+    }
+    let jobs = &jobs;
+    ctx.par_for(
+        jobs.len(),
+        |i| {
+            let (n, k, pipefail, in_if) = jobs[i];
+            let stages: Vec<String> = (0..n).map(|s| format!("probe -s 0 k{}", 10 + s)).collect();
+            let pipeline = stages.join(" | ");
+            let mut script = String::new();
+            if pipefail {
+                script.push_str("set -o pipefail\n");
+            }
+            script.push_str("probe k1\n");
+            if in_if {
+                script.push_str(&format!("if {pipeline}; then probe k8 then; else probe k8 else; fi\n"));
+            } else {
+                script.push_str(&format!("{pipeline}\nprobe k9 \"$?\"\n"));
+            }
+            let mut cfg = vsh::VCfg::script(&script);
+            cfg.extra = vsh::v_probes();
+            cfg.fail_spawn = Some(k);
+            let out = vsh::run_v(cfg);
+            ctx.eval();
+            ctx.count("fork_fault_runs", 1);
+            let ran = |id: &str| out.events.iter().any(|e| e.kind == "probe" && e.args.first().is_some_and(|a| a == id));
+            let ctxt = || format!("pipeline of {n} commands, process creation #{k} fails\nscript:\n{script}\nevents: {:?}\nstderr:\n{}", out.events.iter().map(|e| e.args.join(" ")).collect::<Vec<_>>(), out.err());
+            if out.end != vsh::End::Done {
+                ctx.violation("C13:fork-fault:no-termination", format!("{:?}\n{}", out.end, ctxt()));
+                return;
+            }
+            let last_ran = ran(&format!("k{}", 10 + n - 1));
+            let reported_success = out.events.iter().any(|e| e.kind == "probe" && (e.args == ["k9", "0"] || e.args == ["k8", "then"]));
+            if reported_success && !last_ran {
+                ctx.violation("C13:fork-fault:success-reported-for-a-pipeline-that-did-not-run", ctxt());
+                return;
+            }
+            ctx.nontrivial_str(&format!("fork-fault|{n}|{k}|{pipefail}|{in_if}"));
+        },
+        |i, msg| {
+            if crate::util::panic_in_repo(&msg) {
+                ctx.violation(format!("C13:panic:{}", msg.split(": ").next().unwrap_or("")), format!("fork-fault {i}: {msg}"));
+            } else {
+                ctx.violation("harness-panic", format!("fork-fault {i}: {msg}"));
+            }
+        },
+    );
+}
+
 pub fn run(ctx: &Ctx) {
+    fork_fault_slice(ctx);
     let quick = ctx.quick();
     let nprog = if quick { 1500 } else { 30_000 };
     let dfs_cap: usize = if quick { 60 } else { 400 };
